@@ -98,6 +98,7 @@ class Run(object):
         self.stats_lines = 0
         self.pre_step = None     # harness hook: called by the _Step wrapper before each _Step
         self.map_budget = None   # liveness bound counted in map calls (ensemble steps); None = unbounded
+        self.raised = set()      # EvalRec.n of cost calls that ended in an injected exception
 
     def __reduce__(self):
         # the simulator is not part of the system: a pickle only ever refers to "the current run"
@@ -134,6 +135,7 @@ class Run(object):
         elif k == 'stall':
             self.clock.advance(float(f['dt']), cpu=False)
         elif k == 'raise':
+            if kind == 'cost': self.raised.add(len(self.evals))      # (the call that is failing was logged as begun)
             raise SimFault(f.get('msg', 'injected failure'))
         else:
             return f
@@ -313,6 +315,11 @@ def con_apply(spec, x):
             x = con_apply(s, x)
     elif fam == 'identity':
         pass
+    elif fam == 'zdiv':
+        # leaves every vector as it is, but cannot be evaluated on the plane x[i] == 0 (raises ZeroDivisionError there):
+        # the combinators tolerate that error and try elsewhere
+        if x[p['i']] == 0.0:
+            raise ZeroDivisionError('float division by zero')
     elif fam == 'relax':
         # a contraction (NOT idempotent): halves the distance of x[i] to t; its only fixed point is x[i] == t,
         # reached exactly after ~55 applications (used with or_, which re-applies a member to its own result)
